@@ -480,16 +480,24 @@ impl WalWriter {
                 format!("Failed to rotate WAL: {e}").into(),
             ))
         })?;
-        vpoint!("rotate.after_rename", &self.path);
-
         // Create new WAL file. If that fails the rename is undone: otherwise the
         // open handle keeps appending to a file that now carries a rotated name,
         // and the next checkpoint deletes it from under the writer.
-        self.file = match OpenOptions::new()
+        // (with `verif-hooks`, an error injected at this point stands for the open failing)
+        #[cfg(feature = "verif-hooks")]
+        let opened = match crate::verif_hooks::point("rotate.after_rename", &self.path) {
+            Some(e) => Err(e),
+            None => OpenOptions::new()
+                .create(true)
+                .append(true)
+                .open(&self.path),
+        };
+        #[cfg(not(feature = "verif-hooks"))]
+        let opened = OpenOptions::new()
             .create(true)
             .append(true)
-            .open(&self.path)
-        {
+            .open(&self.path);
+        self.file = match opened {
             Ok(file) => file,
             Err(e) => {
                 let _ = std::fs::rename(&rotated_path, &self.path);
